@@ -30,6 +30,19 @@ BigItem == {<<w, v>> : w \in 1..2, v \in 2..5}
 KnapRandom == \A items \in RandomSubset(NRandom, [1..6 -> BigItem]) : \A limit \in {4, 5, 6} :
     Emit([fn |-> "knapsack", s |-> items, a |-> <<limit>>, out |-> <<Opt(items, limit)>>])
 
+\* items far heavier than any limit (a sentinel weight, "never pick this"): Huge stands for the largest int, Huge - 1 for
+\* 2^62 (the runner maps them; TLC integers have 32 bits, so the specification never adds them up: a selection that
+\* contains such an item is over the limit whatever else it holds).  Several of them in one list, between ordinary
+\* items whose best combination needs the cells on both sides.
+Huge == 2 ^ 30
+IsHuge(it) == it[1] >= Huge - 1
+OptH(items, limit) == LET ok == {i \in 1..Len(items) : ~IsHuge(items[i])} IN
+    MaxOf({SumOver(S, items, 2) : S \in {T \in SUBSET ok : SumOver(T, items, 1) <= limit}})
+HugePool == {<<3, 5>>, <<4, 6>>, <<1, 1>>, <<2, 4>>, <<Huge, 9>>, <<Huge - 1, 8>>}
+KnapHuge == \A items \in SeqsUpTo(HugePool, MaxItems + 1) : \A limit \in {5, 7} :
+    (Cardinality({i \in 1..Len(items) : IsHuge(items[i])}) >= 1) =>
+        Emit([fn |-> "knapsack", s |-> items, a |-> <<limit>>, out |-> <<OptH(items, limit)>>])
+
 \* ---- subset sums: items are values; Totals <= max, smallest total above max
 Vals(items) == [i \in 1..Len(items) |-> <<0, items[i]>>]
 AllTotals(items) == {SumOver(S, Vals(items), 2) : S \in SUBSET (1..Len(items))}
@@ -43,11 +56,27 @@ Pairs(n) == {<<a, b>> \in (1..n) \X (1..n) : a < b}
 Adj(E, a, b) == <<a, b>> \in E \/ <<b, a>> \in E
 IsClique(E, C) == \A a \in C : \A b \in C : a # b => Adj(E, a, b)
 MaxCliques(n, E) == {C \in (SUBSET (1..n)) \ {{}} : IsClique(E, C) /\ \A v \in (1..n) \ C : ~IsClique(E, C \cup {v})}
-CliqueCases == \A n \in 1..MaxVerts : \A E \in SUBSET Pairs(n) :
-    Emit([fn |-> "cliques", s |-> Asc({e[1] * 10 + e[2] : e \in E}), a |-> <<n>>,
+\* The Graph type stores arcs: AddEdge(a, b) adds the arc a -> b (creating the node a if need be), AddUndirectedEdge(a, b)
+\* adds both arcs.  An undirected edge {a, b} can therefore be built in several ways; the arc set is the same for all:
+BuildForms == 0..5
+ArcsOfForm(f, a, b) == CASE f = 0 -> <<{<<a, b>>, <<b, a>>}>>                        \* AddUndirectedEdge(a, b)
+                         [] f = 1 -> <<{<<b, a>>, <<a, b>>}>>                        \* AddUndirectedEdge(b, a)
+                         [] f = 2 -> <<{<<a, b>>}, {<<b, a>>}>>                      \* AddEdge(a, b); AddEdge(b, a)
+                         [] f = 3 -> <<{<<a, b>>}, {<<a, b>>, <<b, a>>}>>            \* AddEdge(a, b); AddUndirectedEdge(a, b)
+                         [] f = 4 -> <<{<<b, a>>}, {<<a, b>>, <<b, a>>}>>            \* AddEdge(b, a); AddUndirectedEdge(a, b)
+                         [] f = 5 -> <<{<<a, b>>, <<b, a>>}, {<<a, b>>, <<b, a>>}>>  \* AddUndirectedEdge(a, b) twice
+RECURSIVE UnionAll(_)
+UnionAll(sq) == IF sq = <<>> THEN {} ELSE Head(sq) \cup UnionAll(Tail(sq))
+\* the k-th edge (in ascending order) of a case with rotation r is built in form (k + r) % 6
+FormAt(k, r) == (k + r) % 6
+FormsSame == \A f \in BuildForms : UnionAll(ArcsOfForm(f, 1, 2)) = {<<1, 2>>, <<2, 1>>}
+ASSUME FormsSame
+CliqueCases == \A n \in 1..MaxVerts : \A E \in SUBSET Pairs(n) : \A r \in (IF E = {} THEN {0} ELSE BuildForms) :
+    Emit([fn |-> "cliques", s |-> Asc({e[1] * 10 + e[2] : e \in E}), a |-> <<n, r>>,
           out |-> Asc({LET c == Asc(C) IN SumOver(1..Len(c), [i \in 1..Len(c) |-> <<0, c[i] * (2 ^ (3 * (i - 1)))>>], 2) : C \in MaxCliques(n, E)})])
 ASSUME KnapCases
 ASSUME KnapRandom
+ASSUME KnapHuge
 ASSUME SumCases
 ASSUME CliqueCases
 Init == x = 0
